@@ -203,3 +203,60 @@ def check(A, props, rs, tol=1e-9):
             if rel > tol4:
                 bad.append("C04: A.N x differs from A.H A x (relative l2 error %g > %g)" % (rel, tol4))
     return bad
+
+
+def check_algebra(A, cls, v):
+    """dense matrix of the composite vs the matrix expression of its parts (structural classes only)"""
+    import sigpy as sp
+    bad = []
+    ops = getattr(A, "linops", None)
+    if ops is None:
+        return bad
+    M = dense_matrix(A)
+    mats = [dense_matrix(o) for o in ops]
+    want = None
+    if isinstance(A, sp.linop.Compose):
+        want = mats[0]
+        for m in mats[1:]:
+            want = want @ m
+    elif isinstance(A, sp.linop.Add):
+        want = sum(mats)
+    elif isinstance(A, (sp.linop.Hstack, sp.linop.Vstack, sp.linop.Diag)):
+        axis = v.get("axis")
+        rr = v.get("rank", 1)
+
+        def blocks(shapes, ax):
+            """index sets (into the flattened stacked array) of each block along axis ax (None = flattened vectors)"""
+            if ax is None:
+                sizes = [int(np.prod(s)) for s in shapes]
+                offs = np.cumsum([0] + sizes)
+                return [np.arange(offs[j], offs[j + 1]) for j in range(len(shapes))], int(offs[-1])
+            full = list(shapes[0])
+            full[ax] = sum(s[ax] for s in shapes)
+            idx = np.arange(int(np.prod(full))).reshape(full)
+            out, off = [], 0
+            for s in shapes:
+                sl = [slice(None)] * len(full)
+                sl[ax] = slice(off, off + s[ax])
+                out.append(idx[tuple(sl)].ravel())
+                off += s[ax]
+            return out, int(np.prod(full))
+        ax = None if axis is None else axis % rr
+        no, ni = int(np.prod(A.oshape)), int(np.prod(A.ishape))
+        want = np.zeros((no, ni), dtype=np.complex128)
+        if isinstance(A, sp.linop.Hstack):
+            cols, _ = blocks([o.ishape for o in ops], ax)
+            for m, c in zip(mats, cols):
+                want[:, c] += m
+        elif isinstance(A, sp.linop.Vstack):
+            rows, _ = blocks([o.oshape for o in ops], ax)
+            for m, r in zip(mats, rows):
+                want[r, :] += m
+        else:
+            cols, _ = blocks([o.ishape for o in ops], ax)
+            rows, _ = blocks([o.oshape for o in ops], ax)
+            for m, r, c in zip(mats, rows, cols):
+                want[np.ix_(r, c)] += m
+    if want is not None and (want.shape != M.shape or np.max(np.abs(want - M)) > 1e-9 * max(1, np.max(np.abs(want)))):
+        bad.append("C03: composite acts differently from the matrix expression of its parts (max dev %g)" % (np.max(np.abs(want - M)) if want.shape == M.shape else -1))
+    return bad
